@@ -17,6 +17,10 @@ CHECKS = {
    text="Deductive: fp/fn/prec/rec/rq/sq*/pq* are evaluated through the real PanopticaResult (constructor, _add_metric binding table, __getattribute__ lazy protocol, Evaluation_List_Metric) on symbolic counts and symbolic per-instance lists and proved equal to the statement's formulas; evaluate_matched_instance is proved by loop invariant (ghost counting function) for symbolic instance lists, every decision metric and threshold: each list has exactly tp entries, tp is the number of instances meeting the threshold, lists are index-aligned; [0,1] ranges and sq_dsc>=sq are lemmas (NRA + induction). Counter-models are replayed; a bounded end-to-end run checks the same clauses on real results.",
    note=TRUST_COMMON + "assumed contract of _evaluate_instance (exactly the evaluated metrics per instance) and np.average*len == sum; per-instance IoU<=Dice and [0,1] are C06 lemmas; MatchedInstancePair's label-set counting is covered by C04/C09 units and the bounded run.",
    tech="contract-based deductive verification: symbolic execution of the real result classes, loop invariant with ghost functions, lemmas by induction in z3, counter-model replay"),
+ "C14": dict(cat="proof", design="DESIGN.md 3 C14",
+   text="Deductive: loop-invariant proof of the real MaximizeMergeMatching._match_instances over a symbolic best-first candidate list for IoU, Dice and ASSD: the label map is a partial map pred->ref whose entries are candidates; a reference is matched only through a single candidate meeting the threshold; the book-kept score of a reference is the combined score of exactly the predictions assigned to it and is never worse than the seeding candidate's; on every merge path the statement's condition (strictly better in the metric's preferred direction) is proved from the comparison the code made; new_combination_score scores preds(r)+{p} and leaves the map untouched. Counter-models are replayed on the real matcher with stubbed scorers; bounded end-to-end enumeration on 1-D fragments.",
+   note=TRUST_COMMON + "assumed contracts: _calc_matching_metric_of_overlapping_labels (best-first candidates, score = metric of the single pair), Metric.__call__ with label selection = function of (ref label, set of pred labels) (C06).",
+   tech="contract-based deductive verification: AST->z3 VCs with loop invariants over map/set abstractions, counter-model replay"),
 }
 NA_REASON = "check not built yet (build in progress, see DESIGN.md section 7)"
 def main():
